@@ -94,6 +94,14 @@ class FieldArrayModel(FieldCompositeModel):
         self.sum_expr = None
         self.sum_expr_btor = None
         
+        if self.is_rand_sz and self.is_scalar:
+            # A random-size scalar list is extended to its maximum size
+            # before the solve. Drop the elements beyond the solved size,
+            # so later appends act on the list the user sees
+            sz = int(self.size.get_val())
+            if sz < len(self.field_l):
+                del self.field_l[sz:]
+        
     def add_field(self) -> FieldScalarModel:
         fid = len(self.field_l)
         if self.is_enum:
